@@ -24,6 +24,8 @@ mod c17;
 mod binfmt;
 #[cfg(feature = "full")]
 mod c11x;
+#[cfg(all(feature = "full", not(miri)))]
+mod c18pool;
 mod cscript;
 mod huge;
 #[cfg(all(feature = "full", not(miri)))]
